@@ -169,4 +169,29 @@ def addrBytes (p : Prefix) : List Nat :=
 def hashLpmSet (ps : List Prefix) : Nat :=
   ps.foldl (fun h p => (addrBytes p).foldl fnvStep (fnvStep h p.bits)) 14695981039346656037
 
+/-! ## DNS response routing: `ip(...)` rules (`component/dns/response_routing.go`) -/
+
+/-- One single-condition response rule `[!]ip(prefixes) -> accept|reject`. -/
+structure DnsIpRule where
+  neg : Bool
+  reject : Bool
+  ps : List Prefix
+
+/-- `ResponseMatcher.Match` restricted to such rules: each rule owns one trie (`ipSet[Value]`), the rule
+hits when some answer address has a stored prefix (`slices.ContainsFunc(bin128, trie.HasPrefix)`),
+negation flips the hit, the first rule that holds decides, the fallback is `accept`.
+`true` = reject. -/
+def dnsIpMatch (rules : List DnsIpRule) (answers : List Nat) : Bool :=
+  match rules with
+  | [] => false
+  | r :: rs => if (answers.any fun a => trieMatch r.ps a) != r.neg then r.reject else dnsIpMatch rs answers
+
+/-- The specification: first rule, top to bottom, whose condition holds, where `ip(ps)` holds iff some
+answer address is contained in some listed prefix. -/
+def dnsIpSpec (rules : List DnsIpRule) (answers : List Nat) : Bool :=
+  match rules with
+  | [] => false
+  | r :: rs =>
+    if (decide (∃ a ∈ answers, ∃ p ∈ r.ps, contains p a)) != r.neg then r.reject else dnsIpSpec rs answers
+
 end DaeVerif.C12
